@@ -35,7 +35,10 @@ Obl(e) ==
          <<"key-id-is-sha256-of-serialized-key", e.key_id = e.sha_pub>>,
          <<"key-id-32-bytes", Len(e.key_id) = 32>>,
          <<"truncated-id-is-last-byte", e.trunc = e.sha_pub[32]>>,
-         <<"rsa-key-serialized-as-pss-spki", e.kind \in {"t2", "t3"} => e.pub = SpkiPss(e.n, e.e)>> >>
+         <<"rsa-key-serialized-as-pss-spki", e.kind \in {"t2", "t3"} => e.pub = SpkiPss(e.n, e.e)>>,
+         \* beyond the listed properties (observations): the issuer reports its token type; name key pairs compare by value
+         <<"beyond:issuer-type-is-the-token-type", e.type = (CASE e.kind = "t1" -> 1 [] e.kind = "t2" -> 2 [] e.kind = "t3" -> 3 [] e.kind = "t5" -> 5)>>,
+         <<"beyond:name-key-pairs-compare-by-value", e.encap_eq>> >>
     [] e.op = "NameKey" -> <<
          \* (a key followed by further bytes in its buffer may be refused; if it is accepted it is the key its own bytes encode)
          <<"well-formed-name-key-decodes", e.decoded \/ e.tail_len > 0>>,
